@@ -543,7 +543,9 @@ func c10Exec(in *c10In) (o c10Obs, globs string) {
 	names := c10Names(in)
 	globs = c10Globs(in, dir, names)
 	if in.Child {
-		ctx, cancel := context.WithTimeout(context.Background(), 90*time.Second)
+		// a soup that imports itself through `import *` needs ~45 s for its 10000 imports on an idle
+		// machine (each one splices every file of the directory again): leave room for a loaded one
+		ctx, cancel := context.WithTimeout(context.Background(), 240*time.Second)
 		defer cancel()
 		cmd := exec.CommandContext(ctx, "sh", "-c", "ulimit -v 4000000; exec \"$0\" c10child \"$1\"", os.Args[0], path)
 		cmd.Env = os.Environ()
